@@ -289,7 +289,7 @@ func (s *Sess) exec(in ssa.Instruction, st *State) {
 			s.assumeAt(st, s.wf(v.t, T, st.top))
 			// protobuf-go validity: a repeated message field of a generated message has no nil
 			// elements (Marshal and reflection reject them); modelling assumption, listed
-			if fa, ok := x.X.(*ssa.FieldAddr); ok && s.nilcheck && isGeneratedMsgPtr(T) && isOneofWrapperPtr(fa.X.Type()) {
+			if fa, ok := x.X.(*ssa.FieldAddr); ok && s.nilcheck && s.eng.parsedOptions && isGeneratedMsgPtr(T) && isOneofWrapperPtr(fa.X.Type()) {
 				// a set oneof arm of a parsed message holds a message (protodesc and Unmarshal never
 				// leave a wrapper with a nil message); modelling assumption, listed
 				s.trustedUsed["set oneof arms of generated protobuf messages hold non-nil messages (descriptor options are normalised by protodesc)"] = true
